@@ -34,11 +34,12 @@ pub struct OpW {
     pub droppipe: u32,
     pub awaitinline: u32,
     pub consumeinline: u32,
+    pub setdepth: u32,
 }
 
 impl Default for OpW {
     fn default() -> OpW {
-        OpW { desync: 10, sync: 8, trysync: 4, futdesync: 6, futsync: 4, after: 3, await_: 8, syncwait: 2, pollonce: 3, dropfut: 2, detach: 1, release: 1, opengate: 4, rewake: 1, waitfor: 2, yield_: 2, suspend: 0, awaitsuspend: 0, resume: 0, dropresumer: 0, pipein: 0, pipe: 0, consume: 0, droppipe: 0, awaitinline: 2, consumeinline: 0 }
+        OpW { desync: 10, sync: 8, trysync: 4, futdesync: 6, futsync: 4, after: 3, await_: 8, syncwait: 2, pollonce: 3, dropfut: 2, detach: 1, release: 1, opengate: 4, rewake: 1, waitfor: 2, yield_: 2, suspend: 0, awaitsuspend: 0, resume: 0, dropresumer: 0, pipein: 0, pipe: 0, consume: 0, droppipe: 0, awaitinline: 2, consumeinline: 0, setdepth: 0 }
     }
 }
 
@@ -220,6 +221,7 @@ pub fn op_strategy(p: &Profile) -> BoxedStrategy<Op> {
         (w.pipe, (u8s, u8s, u8s, pipe_body.clone(), u8s).prop_map(|(o, s, depth, body, slot)| Op::Pipe { o, s, depth, body, slot, id: 0 }).boxed()),
         (w.consume, (u8s, u8s).prop_map(|(slot, k)| Op::Consume { slot, k }).boxed()),
         (w.awaitinline, u8s.prop_map(|slot| Op::AwaitInline { slot }).boxed()),
+        (w.setdepth, (u8s, u8s).prop_map(|(slot, depth)| Op::SetDepth { slot, depth }).boxed()),
         (w.consumeinline, (u8s, prop::bool::weighted(0.4)).prop_map(|(slot, drop_on_wake)| Op::ConsumeInline { slot, drop_on_wake }).boxed()),
         (w.droppipe, u8s.prop_map(|slot| Op::DropPipe { slot }).boxed()),
     ])
